@@ -21,7 +21,7 @@ theorem write_sequence_eq {w : Wr} {tail : List Nat} (h : WrOk w tail) (seq : Na
   simp only [sequence_bytes_required_eq, Exec.call_ok, Exec.bind_eq, Exec.bind_val', Exec.pure_eq, to_le_bytes64]
   have hsl : (RustSem.slice (toNats (Netcode.leBytes seq 8)) 0 (Packet.sequenceBytesRequired seq)
       "renetcode/src/packet.rs:write_sequence: sequence_scratch[..len]" :
-        Exec IoError (WriteCursor × Nat) (List Nat)) = .val (toNats ((Netcode.leBytes seq 8).take (Packet.sequenceBytesRequired seq))) := by
+        Exec (IoError × WriteCursor) (WriteCursor × Nat) (List Nat)) = .val (toNats ((Netcode.leBytes seq 8).take (Packet.sequenceBytesRequired seq))) := by
     unfold RustSem.slice
     have hl8 : (toNats (Netcode.leBytes seq 8)).length = 8 := by rw [toNats_length, leBytes_length]
     rw [if_pos ⟨Nat.zero_le _, by omega⟩]
